@@ -147,7 +147,10 @@ type Interp struct {
 	Cfg    *Config
 	Solver *smt.Solver
 
-	pc      []*smt.Term
+	pc      []pcEntry
+	dsu     map[string]string
+	varCache map[int64][]string
+	pending []pendingAssert
 	prefix  []int64
 	taken   []int64
 	kinds   []string
@@ -177,6 +180,7 @@ type Interp struct {
 	uuidCtr int
 	clock  *smt.Term // last clock reading
 	clockN int
+	clockLogical bool
 	mainDone bool
 	quiescing bool
 	chooseSeq map[string]int
@@ -633,7 +637,7 @@ func (it *Interp) fault(kind, label, msg string, fr *Frame) {
 func (it *Interp) recordViolation(v *Violation, model map[string]uint64) {
 	if model == nil {
 		// path condition is satisfiable by construction: fetch a model
-		res, m, _ := it.Solver.Check(nil, it.vars)
+		res, m := it.modelOf(nil)
 		if res == smt.Sat {
 			model = m
 		}
@@ -701,33 +705,6 @@ func (it *Interp) decide(kind string, alts []int64, feasible func(i int) bool) i
 	it.taken = append(it.taken, ok[0])
 	it.kinds = append(it.kinds, kind)
 	return ok[0]
-}
-
-func (it *Interp) addPC(t *smt.Term) {
-	if t.IsTrue() {
-		return
-	}
-	it.pc = append(it.pc, t)
-	it.Solver.Assert(t)
-}
-
-// feasible asks the solver whether pc AND t is satisfiable; unknown counts as feasible (kept, reported).
-func (it *Interp) feasible(t *smt.Term) bool {
-	if t.IsTrue() {
-		return true
-	}
-	if t.IsFalse() {
-		return false
-	}
-	it.nBranchQ++
-	res, _, err := it.Solver.Check(t, nil)
-	if err != nil {
-		panic(pathEnd{Kind: "unsupported", Label: "solver", Msg: err.Error()})
-	}
-	if res == smt.Unknown {
-		it.unknownBranches++
-	}
-	return res != smt.Unsat
 }
 
 // branch resolves a possibly symbolic boolean into a concrete one, forking the path when both sides are feasible.
@@ -806,7 +783,8 @@ func (it *Interp) concretize(v IntV, what string, limit int) IntV {
 // evalTerm returns the value of t in some model of pc AND extra.
 func (it *Interp) evalTerm(extra *smt.Term, t *smt.Term) (uint64, smt.Result) {
 	alias := smt.Var(fmt.Sprintf("__eval%d", t.ID), t.Sort)
-	res, m, err := it.Solver.Check(smt.And(extra, smt.Eq(alias, t)), []*smt.Term{alias})
+	q := smt.And(extra, smt.Eq(alias, t))
+	res, m, err := it.Solver.Check(q, it.sliceFor(q), []*smt.Term{alias})
 	if err != nil {
 		panic(pathEnd{Kind: "unsupported", Label: "solver", Msg: err.Error()})
 	}
@@ -844,7 +822,23 @@ func (it *Interp) Run(entry *ssa.Function) (res *PathResult) {
 	res = &PathResult{}
 	it.Solver.Reset()
 	defer func() {
-		if r := recover(); r != nil {
+		r := recover()
+		if r == nil || isPathEnd(r, "cut", "fault", "truncated", "done") {
+			// discharge queued assertions under the path condition reached (also on cut/fault/truncated paths)
+			func() {
+				defer func() {
+					if r2 := recover(); r2 != nil && r == nil {
+						r = r2
+					} else if r2 != nil {
+						if pe2, ok := r2.(pathEnd); ok && pe2.Kind == "unsupported" {
+							r = r2
+						}
+					}
+				}()
+				it.flushAsserts()
+			}()
+		}
+		if r != nil {
 			pe, ok := r.(pathEnd)
 			if !ok {
 				// interpreter bug: report as unsupported with the Go panic text
@@ -959,4 +953,17 @@ func zeroResult(cc *ssa.CallCommon) Value {
 		return zero(res.At(0).Type())
 	}
 	return zero(res)
+}
+
+func isPathEnd(r any, kinds ...string) bool {
+	pe, ok := r.(pathEnd)
+	if !ok {
+		return false
+	}
+	for _, k := range kinds {
+		if pe.Kind == k {
+			return true
+		}
+	}
+	return false
 }
